@@ -1,4 +1,4 @@
-use std::collections::HashMap;
+use std::collections::BTreeMap;
 
 use common_lang_types::{
     DescriptionValue, Diagnostic, EmbeddedLocation, EntityName, Location, SelectableName,
@@ -40,7 +40,7 @@ pub fn process_graphql_type_system_document(
     type_system_document: GraphQLTypeSystemDocument,
     graphql_root_types: &mut Option<GraphQLRootTypes>,
     outcome: &mut DeprecatedParseTypeSystemOutcome<GraphQLAndJavascriptProfile>,
-    directives: &mut HashMap<EntityName, Vec<GraphQLDirective<GraphQLConstantValue>>>,
+    directives: &mut BTreeMap<EntityName, Vec<GraphQLDirective<GraphQLConstantValue>>>,
     interfaces_to_process: &mut Vec<WithEmbeddedLocation<GraphQLInterfaceTypeDefinition>>,
     non_fatal_diagnostics: &mut Vec<Diagnostic>,
 ) {
@@ -235,7 +235,7 @@ pub fn process_graphql_type_system_extension_document(
     extension_document: GraphQLTypeSystemExtensionDocument,
     graphql_root_types: &mut Option<GraphQLRootTypes>,
     outcome: &mut DeprecatedParseTypeSystemOutcome<GraphQLAndJavascriptProfile>,
-    directives: &mut HashMap<EntityName, Vec<GraphQLDirective<GraphQLConstantValue>>>,
+    directives: &mut BTreeMap<EntityName, Vec<GraphQLDirective<GraphQLConstantValue>>>,
     interfaces_to_process: &mut Vec<WithEmbeddedLocation<GraphQLInterfaceTypeDefinition>>,
     non_fatal_diagnostics: &mut Vec<Diagnostic>,
 ) {
